@@ -175,7 +175,7 @@ STANDARD = {'CKM_AES_KEY_WRAP': 'RFC 3394', 'CKM_AES_KEY_WRAP_PAD': 'RFC 5649', 
 
 def private_material(e, sp):
     """-> (refcrypt key, token handle, CKK, {attribute: expected bytes} that identify the key, PKCS#8 comparison function)"""
-    K = KF.load(); ck = e.ck; pk = sp['pk']; ib = KF.ib
+    K = KF.load(); ck = e.ck; pk = [tuple(v) if isinstance(v, list) else v for v in sp['pk']]; ib = KF.ib
     if pk[0] == 'rsa':
         k = K['rsa'][pk[1]]; return k, e.t.rsa_priv(k), ck.CKK_RSA, {'CKA_MODULUS': ib(k.n), 'CKA_PUBLIC_EXPONENT': ib(k.e), 'CKA_PRIVATE_EXPONENT': ib(k.d), 'CKA_PRIME_1': ib(k.p), 'CKA_PRIME_2': ib(k.q),
                                                                'CKA_EXPONENT_1': ib(k.dp), 'CKA_EXPONENT_2': ib(k.dq), 'CKA_COEFFICIENT': ib(k.qinv)}, \
@@ -489,6 +489,11 @@ def run(ctx):
                 'one probe per template attribute; or one created/generated key whose check value is compared; distinct = (config, family, mechanism, key sizes, type, length); non-trivial = the '
                 'positive control held (a blob/derived value agreed with refcrypt, or a non-empty check value was compared)')
     ctx.extra['refcrypt_selftest_checks'] = R.selftest()
+    if getattr(ctx, 'replay', None):                  # ./check C13 --replay replays/C13/<hash>.json : re-run exactly that case
+        import json, atexit; w = json.load(open(ctx.replay))['witness']; cfg = w.get('cfg', 'asan'); ctx.need(cfg)
+        evp = os.path.join(os.path.dirname(os.path.abspath(__file__)), '..', 'evidence', 'C13.json'); old = open(evp, 'rb').read() if os.path.exists(evp) else None
+        if old is not None: atexit.register(lambda: open(evp, 'wb').write(old))      # a replay must not replace the evidence of the last real run; sp = {k: v for k, v in w['spec'].items() if not k.startswith('_')}
+        ctx.merge(worker(dict(ix=0, cfg=cfg, specs=[sp], paths=ctx.paths, hdr=ctx.paths[cfg]['hdr'], scratch=ctx.scratch))); return
     cfgs = ('asan',) if ctx.quick else ('asan', 'botan'); ctx.need(*cfgs); jobs = []
     for cfg in cfgs:
         t = KF.boot_tok(ctx.paths, ctx.ck, cfg, ctx.dir('probe-' + cfg)); adv = t.mechs; t.x.close()
